@@ -178,7 +178,13 @@ func (p *pipeEnd) reset() bool {
 
 var errReset = &net.OpError{Op: "read", Net: "sim", Err: errors.New("connection reset by peer")}
 
+// Yield, if set, is called at the start of every Read and Write of a connection (core.Yield).
+var Yield func()
+
 func (p *pipeEnd) Read(b []byte) (int, error) {
+	if Yield != nil {
+		Yield()
+	}
 	for {
 		p.mu.Lock()
 		switch {
@@ -229,6 +235,9 @@ func (p *pipeEnd) deliver(data []byte) {
 }
 
 func (p *pipeEnd) Write(b []byte) (int, error) {
+	if Yield != nil {
+		Yield()
+	}
 	p.mu.Lock()
 	if p.closed {
 		p.mu.Unlock()
